@@ -396,7 +396,7 @@ pub struct HugeC {
     pub mask: Level,
     pub prefix: u32,
     pub len: u64,
-    pub out_len: u32,
+    pub out_len: u64,
 }
 
 pub fn check_huge(c: &HugeC) -> Result<(), String> {
@@ -417,13 +417,32 @@ pub fn check_huge(c: &HugeC) -> Result<(), String> {
         (api.finalize_seek)(&*h, 5, out.as_mut_ptr(), out.len());
         *api.features = cshim::F_UNDEFINED;
     }
-    let want = b3spec::root(&b3spec::KeyFlags::hash(), &all).xof(5, c.out_len as usize);
-    eq_bytes(&format!("{}: one update of {} bytes after {} bytes, {} output bytes from offset 5", api.name, c.len, c.prefix, c.out_len), &out, &want)
+    let root = b3spec::root(&b3spec::KeyFlags::hash(), &all);
+    let what = format!("{}: one update of {} bytes after {} bytes, {} output bytes from offset 5", api.name, c.len, c.prefix, c.out_len);
+    if c.out_len <= 2_000_000 {
+        return eq_bytes(&what, &out, &root.xof(5, c.out_len as usize));
+    }
+    // a very long output (size_t arithmetic beyond 32 bits in the output path): compared in windows, at the start,
+    // on both sides of every multiple of 2^32 bytes and of 2^16 blocks inside it, and at the end
+    let n = c.out_len;
+    let mut starts: Vec<u64> = vec![0, 4_194_304 - 100, n.saturating_sub(400)];
+    let mut m = 1u64 << 32;
+    while m < n {
+        starts.push(m - 300);
+        starts.push(m - 5 - 64);
+        m += 1u64 << 32;
+    }
+    for st in starts {
+        let st = st.min(n.saturating_sub(1));
+        let w = core::cmp::min(700, n - st) as usize;
+        eq_bytes(&format!("{} [window at output byte {}]", what, st), &out[st as usize..st as usize + w], &root.xof(5 + st, w))?;
+    }
+    Ok(())
 }
 
 fn huge_items(tier: Tier) -> Box<dyn Iterator<Item = HugeC>> {
     // 2^31+1024 after a 1-byte prefix, and exactly 2^32 bytes in one call (size_t helpers at the 32-bit boundary)
-    let mut v = vec![HugeC { variant: 0, mask: Level::Avx512, prefix: 1, len: (1u64 << 31) + 1024, out_len: 200_000 }, HugeC { variant: 1, mask: Level::Avx512, prefix: 0, len: 1u64 << 32, out_len: 64 }];
+    let mut v = vec![HugeC { variant: 0, mask: Level::Avx512, prefix: 1, len: (1u64 << 31) + 1024, out_len: 200_000 }, HugeC { variant: 1, mask: Level::Avx512, prefix: 0, len: 1u64 << 32, out_len: 64 }, HugeC { variant: 0, mask: Level::Avx512, prefix: 0, len: 70_000, out_len: (1u64 << 32) + 197 }];
     if tier == Tier::Thorough {
         v.push(HugeC { variant: 1, mask: Level::Avx512, prefix: 0, len: (1u64 << 32) + 1, out_len: 1_000_000 });
         v.push(HugeC { variant: 0, mask: Level::Avx2, prefix: 1025, len: 1u64 << 32, out_len: 64 });
@@ -436,7 +455,7 @@ pub fn subs() -> Vec<Box<dyn DynSub>> {
     vec![
         Box::new(crate::runner::EnumSub::<HugeC> {
             name: "c-huge",
-            rule: "enumeration: one blake3_hasher_update of 2^31+1024 bytes and one of exactly 2^32 bytes (quick) / 2^32+1, 2^32, 2^32+5123 bytes (thorough) after a short prefix, and finalize_seek of up to 1 MB of output; vs spec (size_t arithmetic beyond 32 bits)",
+            rule: "enumeration: one blake3_hasher_update of 2^31+1024 bytes and one of exactly 2^32 bytes (quick) / 2^32+1, 2^32, 2^32+5123 bytes (thorough) after a short prefix, and finalize_seek of up to 1 MB of output, and one finalize_seek of 2^32+197 output bytes (compared in windows); vs spec (size_t arithmetic beyond 32 bits)",
             items: huge_items,
             classify: |c| Classes::new(true).tag(c.len >= (1u64 << 32), "update>=2^32-bytes").tag(c.out_len >= 100_000, "out_len>=100000"),
             check: check_huge,
